@@ -27,10 +27,10 @@ func VerifMinCount(variable Variable, p path.PropertyPath, n int) Rule {
 }
 
 // VerifSetGenvarCounter puts the process-wide identifier counter in an arbitrary state.
-func VerifSetGenvarCounter(c int) { globalGenerator.counter = c }
+func VerifSetGenvarCounter(c int) { genvarCounter = int64(c) }
 
 // VerifGenvarCounter reads it back.
-func VerifGenvarCounter() int { return globalGenerator.counter }
+func VerifGenvarCounter() int { return int(genvarCounter) }
 
 // VerifCounterState returns an arbitrary counter state: a boundary base plus a symbolic
 // offset (decimal rendering forces the executor to enumerate the offset).
@@ -42,13 +42,13 @@ func VerifCounterState() int {
 // VerifC07Genvar: one inductive step of Genvar from an arbitrary counter state.
 func VerifC07Genvar() {
 	c := VerifCounterState()
-	globalGenerator.counter = c
+	VerifSetGenvarCounter(c)
 	name := Genvar("x")
 	v.Reach("named")
-	v.Assert("C07.genvar-step.post", globalGenerator.counter == c+1)
+	v.Assert("C07.genvar-step.post", VerifGenvarCounter() == c+1)
 	name2 := Genvar("x")
 	v.Assert("C07.genvar-step.distinct", name != name2)
-	v.Assert("C07.genvar-step.post2", globalGenerator.counter == c+2)
+	v.Assert("C07.genvar-step.post2", VerifGenvarCounter() == c+2)
 	for i := 0; i < len(name); i++ {
 		ch := name[i]
 		v.Assert("C07.genvar-identifier", ch == '_' || (ch >= 'a' && ch <= 'z') || (ch >= 'A' && ch <= 'Z') || (ch >= '0' && ch <= '9'))
